@@ -1,5 +1,6 @@
 """C05 - register allocation preserves the meaning of Compiler programs (verified translation validator)."""
 import collections
+import re
 import random
 
 import vlib
@@ -206,7 +207,10 @@ def a64_list_programs(rng, n, tbl=False):
             cnt = rng.randrange(1, 5)
             lst = rng.sample(vec, min(cnt, len(vec)))
             if tbl and c < 0.6:
-                d, idx = rng.choice(vec), rng.choice(vec)
+                others = [v for v in vec if v not in lst] or vec
+                # destination / index inside the table are architecturally fine but the allocator refuses them (error, not wrong code): keep them rare
+                d = rng.choice(vec if rng.random() < 0.15 else others)
+                idx = rng.choice(vec if rng.random() < 0.04 else others)
                 body.append(("i", rng.choice(["tbl", "tbx"]), [R(d, "b16")] + [R(v, "b16") for v in lst] + [R(idx, "b16")]))
             elif c < 0.45:
                 body.append(("i", "ld%d" % len(lst), [R(v, "s4") for v in lst] + [M(0, "p", 0)]))
@@ -474,24 +478,35 @@ def run(res):
                 d, _, _ = vlib.run_model("C05", ["diff " + o[0]])
                 info = {"validator": v[0][:600], "abstract_machine": d[0][:600] if d else ""}
         list_stats[p["family"] + ":" + k] += 1
-        list_first.setdefault((p["family"], k), (l, info))
+        # exact keys: a different failure of the same family must not be swallowed by an open finding of that family
+        if k == "abort":
+            frames = [re.sub(r".* in (\S+).*", r"\1", x) for x in err3.splitlines() if " in asmjit::" in x][:1]
+            detail = (frames or ["timeout" if rc3 == -9 else "rc%d" % rc3])[0][:80]
+        elif k == "sererr":
+            detail = v[0].split()[-1]
+        elif k == "reject":
+            m = re.search(r'Inst\.\w+\s+"(\w+)', v[0])
+            detail = (m.group(1) if m else " ".join(v[0].split()[1:4])).replace("tbx", "tbl")
+        else:
+            detail = ""
+        list_first.setdefault((p["family"], k, detail), (l, info))
     res.coverage["register_list_families"] = dict(list_stats)
-    for (famname, k), (l, info) in sorted(list_first.items()):
-        if k in ("valid", "raerr"):
+    if not list_progs or sum(list_stats.values()) != len(list_progs):
+        res.violation("register-list families did not run (%d of %d programs)" % (sum(list_stats.values()), len(list_progs)), {}, found_input=False, key="empty")
+    for (famname, k, detail), (l, info) in sorted(list_first.items()):
+        if k in ("valid", "raerr", "unsupported"):
             continue
-        what = {"abort": "the register allocator crashes (sanitizer report) on a function with register lists",
+        what = {"abort": "the register allocator crashes / hangs (sanitizer report) on a function with register lists",
                 "sererr": "the allocated function cannot be serialized (register list not consecutive / invalid form)",
-                "reject": "the proved validator refuses the allocation of a function with register lists",
-                "unsupported": "validator cannot follow"}.get(k, k)
-        if k == "unsupported":
-            continue
+                "reject": "the proved validator refuses the allocation of a function with register lists"}.get(k, k)
         found = k == "abort" or (k == "reject" and isinstance(info, dict) and info["abstract_machine"].startswith("differ"))
-        res.violation("%s [%s]: %s" % (what, famname, str(info)[:700]), {"ops": [l], "detail": info}, found_input=found, key="%s:%s" % (k, famname))
+        res.violation("%s [%s %s]: %s" % (what, famname, detail, str(info)[:700]), {"ops": [l], "detail": info}, found_input=found,
+                      key="%s:%s:%s" % (k, famname, detail))
 
     stats = collections.Counter()
     fam = collections.Counter()
     unsupported = collections.Counter()
-    rejects, mism = [], []
+    rejects, mism, exec_missing = [], [], []
     nexec = 0
     inserted = deleted = pairs = 0
     for i, (p, o, v) in enumerate(zip(progs, impl, verdicts)):
@@ -514,6 +529,9 @@ def run(res):
             rejects.append(i)
         n, bad, und = judge_exec(p, o)
         nexec += n
+        if k == "valid" and p["arch"][0] == "x64" and p.get("inputs") and p["family"] != "x64-byref" and n + und == 0:
+            stats["exec_missing"] += 1
+            exec_missing.append(i)
         stats["exec_undefined_by_interpreter"] += und
         if bad:
             mism.append((i, bad))
@@ -606,11 +624,18 @@ def run(res):
     # 3. too many programs the validator cannot follow
     unval = stats["unsupported"] + sum(v for k, v in stats.items() if k.startswith("harness-"))
     res.coverage["unvalidated"] = unval
-    if not reported and unval > 0.05 * len(progs):
+    # these are reported whatever else was found (a found-input violation or an open finding must not hide them)
+    if unval > 0.05 * len(progs):
         res.violation("%d of %d programs could not be validated (cap 5%%): %s" % (unval, len(progs), dict(unsupported.most_common(5))),
                       {"unvalidated": dict(unsupported)}, found_input=False, key="unvalidated")
-    elif not reported and broken:
-        res.violation("proof obligation no longer checks: " + " | ".join(broken)[:1500], {"unchecked": broken}, False, key="obligation")
+    if broken:
+        res.violation("proof obligation / translator no longer checks: " + " | ".join(broken)[:1500], {"unchecked": broken}, False, key="obligation")
+    if exec_missing:
+        i = exec_missing[0]
+        res.violation("%d validated x86-64 programs were not executed on the host (no EXEC results): %s" % (len(exec_missing), impl[i].split(" SER", 1)[-1][:200]),
+                      {"ops": [lines[i]]}, found_input=False, key="exec-missing")
+    if stats["valid"] == 0 or (nexec == 0 and any(p["arch"][0] == "x64" and p.get("inputs") for p in progs)):
+        res.violation("empty run: %d programs validated, %d host executions compared" % (stats["valid"], nexec), {}, found_input=False, key="empty")
 
 
 def replay(data):
